@@ -441,6 +441,11 @@ func (f Frame) evalBool(v ssa.Value, p Path, depth int) (t, fs Set, known bool) 
 			a, b, k := f.evalBool(x.X, p, depth+1)
 			return b, a, k
 		}
+		if x.Op == token.MUL {
+			if r := resolveRetVal(x, p); r != ssa.Value(x) {
+				return f.evalBool(r, p, depth+1)
+			}
+		}
 	case *ssa.BinOp:
 		if a, ok := f.Atom(x, true); ok {
 			return full.Intersect(a), full.Intersect(a.Complement()), true
@@ -493,6 +498,9 @@ func (f Frame) FuncBoolMeaning(fn *ssa.Function, idx int, keep PathKeep, opaque 
 
 // resolveRetVal: named bool results ("ok = true; return") appear as loads of
 // an Alloc; pick the last store on the path.
+// ResolveRetVal is resolveRetVal for rule code.
+func ResolveRetVal(v ssa.Value, p Path) ssa.Value { return resolveRetVal(v, p) }
+
 func resolveRetVal(v ssa.Value, p Path) ssa.Value {
 	u, ok := v.(*ssa.UnOp)
 	if !ok || u.Op != token.MUL {
@@ -503,14 +511,19 @@ func resolveRetVal(v ssa.Value, p Path) ssa.Value {
 		return v
 	}
 	var last ssa.Value
+	done := false
 	for _, b := range p {
 		for _, in := range b.Instrs {
-			if s, ok := in.(*ssa.Store); ok && s.Addr == a {
-				last = s.Val
-			}
 			if in == ssa.Instruction(u) {
+				done = true
 				break
 			}
+			if s, ok := in.(*ssa.Store); ok && s.Addr == ssa.Value(a) {
+				last = s.Val
+			}
+		}
+		if done {
+			break
 		}
 	}
 	if last == nil {
